@@ -17,6 +17,9 @@ CLAIMS = {
  "C06": dict(engine="SYMX", text="Bounded model checking of the real FDWRA code: the inner routine is executed from an arbitrary valid state (symbolic peak frequencies, curves and n; every max_iterations in the bound; 4 distribution pairs) next to a transcription of the published loop on a shadow state, and on every solver-enumerated path the masks, the returned count, monotonicity and the iteration bound must agree; the outer function is checked to be 'peak search + inner routine per object, maximum of the counts'; small end-to-end runs on constructor-built traditional and azimuthal objects; permutation and scale invariance.",
    note="Bounds: 3-4 (quick) / 3-5 (thorough) windows, 3-4 frequencies, max_iterations 1-3/1-4, 2 azimuths. The estimators the loop calls are C05's subject (the reference calls the same accessors on a shadow object). sqrt/exp/log uninterpreted with monotone log-space comparisons; witnesses are concretised across the uninterpreted-function gap and replayed. Rounding in the 0.01 tests outside the claim.",
    tech="symbolic execution of the real source vs. reference transcription of Cox et al. (2020), path-wise agreement decided by z3 branch feasibility; witnesses replayed", ref="2/C06"),
+ "C09": dict(engine="SYMX", text="Bounded model checking of process() for every method family (frequency-domain combinations, single azimuth, RotDpp, azimuthal, diffuse field, PSD with and without smoothing) on records with symbolic samples and an arbitrary symbolic taper: per solver-enumerated path, (1) every input sample term after the call equals the term before (unsat query), time step/orientation/metadata/settings unchanged; (2) a second call returns the same terms; (3) the result's object graph shares no mutable object with records or settings (heap-shape assertion on each explored path, replayed concretely by mutating the inputs afterwards).",
+   note="Bounds: 3 samples, 1-2 records, n_fft 4 (8 in thorough). Frame and repeatability are solver-decided on terms; isolation is an alias analysis of the concrete heap of each explored path (numpy object arrays keep numpy's own view/copy semantics). Same stubs as C01.",
+   tech="symbolic execution of the real pipeline; frame/repeatability as z3 term-equality queries, alias check on the explored heaps; witnesses replayed", ref="2/C09"),
  "C11": dict(engine="SYMX", text="Bounded model checking of every statistic accessor of HvsrAzimuthal (numpy's own np.cov(aweights=) included) from an arbitrary valid state with solver-forked accept/reject status per window and azimuth: weights, means, 1-sum(w^2)-normalised deviations, covariance, mean/std curves are proved equal to the equal-azimuth-weight estimators; cov diagonal = std^2; azimuth-order invariance; single azimuth = traditional statistics.",
    note="Bounds: 1-2 (quick) / 1-3 (thorough) azimuths x 2-3 windows x 2-3 frequencies. Accepted windows are assumed to have a peak; floats as reals with concrete float constants read as the simple rationals they round; sqrt/exp/log uninterpreted (argument equality decided).",
    tech="symbolic execution from an arbitrary valid state + z3 equality queries against the Cheng et al. weighted estimators", ref="2/C11"),
